@@ -275,6 +275,9 @@ pub fn run(ctx: &Ctx) -> i32 {
             acc.inconclusive.push(format!("binder kind never reached: {k}"));
         }
     }
+    if !ctx.quick() {
+        acc.asan(&["c18"]);
+    }
     acc.finish(
         "exploration",
         "G-wt multi-module workspaces with shadowing on disk; the real oal-lsp is asked prepareRename at the start and middle of every identifier occurrence (uses of declarations, parameters, rec binders, builtins, qualifiers of uses, declaration names, binders, import qualifiers) and at random positions (<=40 probes per workspace); wherever a range is offered, textDocument/rename to a fresh name (an @-name for @-identifiers), edits checked (non-overlapping, each holding exactly the old name), applied by an independent client-side UTF-16 model, and both versions compiled with the real oal-cli and compared up to generated names (for an @name: with that component renamed); server liveness after every request; non-trivial = every workspace; distinct by source hash",
